@@ -2,7 +2,7 @@
    stalls; the bridging pipe delivers exactly once in order.
    This file contains only statements, each closed by [exact]. *)
 From Coq Require Import ZArith List Bool.
-From BV Require Import Model.DataQueue Model.Pipe Proofs.DataQueue Proofs.Pipe.
+From BV Require Import Model.DataQueue Model.Pipe Proofs.DataQueue Proofs.Pipe Gen.C04Shape.
 Import ListNotations.
 Open Scope Z_scope.
 
@@ -62,6 +62,25 @@ Proof.
   apply p_run_ready. intros _. reflexivity.
 Qed.
 Print Assumptions C04_pipe_progress.
+
+(* The shape of the code the models were read from, regenerated from the current source on every run
+   (tools/translate/c04_shape.py): the queue is used first-in first-out (enqueue and _check_queue work on
+   opposite ends of the deque), the send-while-credit loop has the modelled guard, hands over exactly one
+   packet and bumps the global and the per-connection counter once per iteration, enqueue / flush /
+   on_packets_completed all pump the queue, the pipe is first-in first-out and every operation re-evaluates
+   check_pump(). An edit that changes any of these facts breaks this obligation whether or not a generated
+   history happens to expose it. *)
+Definition side_eqb (a b : side) : bool :=
+  match a, b with SLeft, SLeft | SRight, SRight => true | _, _ => false end.
+Definition shape_ok (s : shape) : bool :=
+  negb (side_eqb (q_in_side s) (q_out_side s)) && q_loop_guard_ok s &&
+  Nat.eqb (q_sends_per_iteration s) 1 && Nat.eqb (q_increments_per_iteration s) 2 &&
+  q_enqueue_pumps s && q_flush_pumps s && q_completed_pumps s &&
+  negb (side_eqb (p_in_side s) (p_out_side s)) &&
+  p_write_checks s && p_pause_checks s && p_resume_checks s && p_pump_checks s.
+Theorem C04_source_shape_is_the_modelled_shape : shape_ok shape_of_source = true.
+Proof. vm_compute. reflexivity. Qed.
+Print Assumptions C04_source_shape_is_the_modelled_shape.
 
 (* Non-vacuity: a concrete history reaching a state with waiting packets. *)
 Example C04_nonvacuous :
